@@ -321,10 +321,23 @@ class Gen:
             parts.append(")")
             return parts
         if k == "index":
-            return [v, "["] + self.expr(env, 0) + ["]"]
+            return [v, "["] + self.subscript(env) + ["]"]
         if k == "member":
             return [v, r.choice(["->", "."]), env["field"]()]
         raise AssertionError(k)
+
+    def subscript(self, env):
+        """array subscript: a primary, or (rich) an expression with a binary operator / sizeof / character constant"""
+        if not self.rich or self.r.random() < 0.5:
+            return self.expr(env, 0)
+        k = self.r.choice(["bin", "bin", "sizeof", "chr"])
+        if k == "bin":
+            op = self.r.choice(["%", "&", "+", "-", "*", "<", "==", ">>"])
+            s = Slot("binop1" if len(op) == 1 else "binop2", op)
+            return self.prim_simple(env) + [" ", s, " "] + [self.const(["dec"])]
+        if k == "sizeof":
+            return ["sizeof(", self.r.choice(TYPES_SIMPLE[:6]), ") - 1"]
+        return [self.const(["chr"]), " - ", self.const(["chr"])]
 
     def arg(self, env, depth):
         """a call argument / right-hand side: an expression or a whole string literal"""
@@ -418,7 +431,7 @@ class Gen:
         if k == "deref":
             return ["*", v]
         if k == "index":
-            return [v, "["] + self.expr(env, 0) + ["]"]
+            return [v, "["] + self.subscript(env) + ["]"]
         return [v, r.choice(["->", "."]), env["field"]()]
 
     def fits(self, parts, depth):
